@@ -1,5 +1,6 @@
 import Proofs.C02.Ecdsa
 import Proofs.C02.Misc
+import Proofs.C02.Der
 /-!
 # C02 — ECDSA: signatures verify, verification is the SEC 1 equation, recovery, DER is canonical
 
@@ -95,6 +96,43 @@ theorem bms_accepts_table : ∀ rf ∈ List.range 70,
     (Bms.accepts .p2sh rf = decide (31 ≤ rf ∧ rf ≤ 38)) ∧
     (Bms.accepts .p2wpkh rf = decide ((31 ≤ rf ∧ rf ≤ 34) ∨ (39 ≤ rf ∧ rf ≤ 42))) :=
   Bms.accepts_table
+
+/-- T5a (DER, parse ∘ serialize): for all naturals `r, s` the encoding `Sig.serialize` writes (the TRANSLATED
+    writers `Gen.Ecdsa.serialize_scalar` / `varBytesSerialize`, regenerated from dsa.py / var_bytes.py) is read
+    back as `(r, s)`, by the strict and by the lax parser — provided it stays within CompactSize's cap on a
+    length (32 MiB; the code's own guard, far above any DER-expressible signature). -/
+theorem der_parse_serialize (strict : Bool) (r s : ℕ) (b : Bytes)
+    (h : Der.serialize (r : ℤ) (s : ℤ) = .ok b) (hmax : b.length ≤ Gen.VarInt.MAX_SIZE) :
+    Der.parse strict b = some (r, s) :=
+  Der.parse_serialize strict r s b h hmax
+
+/-- T5b (DER, canonicality): a byte string the strict parser accepts IS the serialization of the signature
+    it returns: no trailing bytes, no non-minimal length, no padded / negative integer, nothing between or
+    after the two integers. -/
+theorem der_serialize_parse (b : Bytes) (r s : ℕ) (h : Der.parseStrict b = some (r, s)) :
+    Der.serialize (r : ℤ) (s : ℤ) = .ok b :=
+  Der.serialize_parse b r s h
+
+/-- T5b' (hence): distinct byte strings never strictly decode to one signature. -/
+theorem der_strict_injective (b₁ b₂ : Bytes) (σ : ℕ × ℕ)
+    (h₁ : Der.parseStrict b₁ = some σ) (h₂ : Der.parseStrict b₂ = some σ) : b₁ = b₂ := by
+  have e₁ := Der.serialize_parse b₁ σ.1 σ.2 h₁
+  have e₂ := Der.serialize_parse b₂ σ.1 σ.2 h₂
+  rw [e₁] at e₂
+  exact Except.ok.inj e₂
+
+/-- T5c (DER): lax ⊇ strict, with the same reading. -/
+theorem der_lax_of_strict (b : Bytes) (σ : ℕ × ℕ) (h : Der.parseStrict b = some σ) :
+    Der.parseLax b = some σ :=
+  Der.lax_of_strict b σ h
+
+-- non-vacuity (DER): a 128 needs its pad byte, a padded 1 and a trailing byte are refused by strict only
+example : Der.serialize 1 128 = .ok [0x30, 0x07, 0x02, 0x01, 0x01, 0x02, 0x02, 0x00, 0x80] := by decide
+example : Der.parseStrict [0x30, 0x07, 0x02, 0x01, 0x01, 0x02, 0x02, 0x00, 0x80] = some (1, 128) := by decide
+example : Der.parseStrict [0x30, 0x07, 0x02, 0x02, 0x00, 0x01, 0x02, 0x01, 0x05] = none := by decide
+example : Der.parseLax [0x30, 0x07, 0x02, 0x02, 0x00, 0x01, 0x02, 0x01, 0x05] = some (1, 5) := by decide
+example : Der.parseStrict [0x30, 0x06, 0x02, 0x01, 0x01, 0x02, 0x01, 0x05, 0x00] = none := by decide
+example : Der.parseStrict [0x30, 0x06, 0x02, 0x01, 0x81, 0x02, 0x01, 0x05] = none := by decide
 
 -- non-vacuity: the hypotheses are met by concrete executions on a 13-point curve (p = 19, n = 13)
 def toy : EC.Curve := { p := 19, a := 0, b := 2, gx := 4, gy := 16, n := 13, h := 2 }
